@@ -25,7 +25,6 @@ import (
 	"errors"
 	"fmt"
 	"go/ast"
-	"go/format"
 	"go/parser"
 	"go/token"
 	"io"
@@ -313,7 +312,7 @@ func (cmd *mainCmd) Run(args []string) error {
 		}
 
 		var out bytes.Buffer
-		if err := format.Node(&out, fset, f); err != nil {
+		if err := goast.Format(&out, fset, f); err != nil {
 			log.Printf("%s: failed: %v", filename, err)
 			errors = append(errors, fmt.Errorf("failed to rewrite %q: %v", filename, err))
 			continue
